@@ -214,7 +214,7 @@ Lemma model_literal_accepted off ws ps l :
   model_literal off ws ps = OOk l -> check_literal off ws ps l = true.
 Proof.
   unfold model_literal, check_literal, offset_in_domain. intros E.
-  destruct ((0 <=? off) && (off <=? BIG) && (off mod 64 =? 0) && words_okb ws && (zlen ws <=? 2 ^ 16)) eqn:D;
+  destruct ((- BIG <=? off) && (off <=? BIG) && (off mod 64 =? 0) && words_okb ws && (zlen ws <=? 2 ^ 16)) eqn:D;
     [|discriminate].
   apply andb_true_iff in D. destruct D as [D _]. apply andb_true_iff in D. destruct D as [D Dw].
   apply andb_true_iff in D. destruct D as [_ D]. apply Z.eqb_eq in D. apply words_okb_ok in Dw.
